@@ -256,6 +256,35 @@ CHECKS = {
         "coarse partner lattice (every accepted scene is genuine).",
         "3/C08",
     ),
+    "C09": (
+        "exploration",
+        "bounded-exhaustive Python program generator + finite corpus, CPython's parser as reference",
+        "translation validation over a bounded-exhaustive enumeration of Python programs (every parent/field/child triple of Python 3.12's "
+        "abstract grammar, operator nestings, literal / layout forms, soft keywords) plus a completely enumerated corpus; oracle: ast.dump "
+        "equality with CPython's own parser after the documented rewrites",
+        "about 100 000 (thorough: depth-3 closure, embedded fragments in behaviors / monitors / requirements / specifiers, the whole standard "
+        "library) Python programs satisfying the property's precondition: the tree produced by Scenic's parser + compiler equals "
+        "ast.parse's tree (include_attributes=True: every node, field, line and column) after exactly the documented rewrites, and the "
+        "translated module compiles. Programs using Scenic's reserved words are excluded and counted; nodes sitting on a token to which the "
+        "reference gives a Scenic meaning are excused individually and counted.",
+        "Trusted: gen/pysyntax.py (generator), the RefRewriter in the check (documented rewrites), CPython's ast module. Known findings: "
+        "column offsets counted in characters instead of UTF-8 bytes, raw f-string format specs (a CPython quirk), `a[b]: c` in a class body "
+        "(deliberately Scenic syntax), walrus / type-alias targets that are behavior locals.",
+        "3/C09",
+    ),
+    "C10": (
+        "exploration",
+        "mutation explorer (deviation-bounded) over a finite seed corpus + documented grammar forms",
+        "deviation-bounded exploration: 0 mutations (every seed program and every expansion of every grammar form quoted by the reference), "
+        "then EVERY single token / line / truncation mutation of the selected seeds (thorough: all pairs on the smallest seeds); oracle: "
+        "scenario or located ScenicSyntaxError, never another exception, a hang or dirty global state",
+        "1060 seeds (all test snippets, examples, library files, documentation blocks), 573 expansions of the 85 documented forms (all must be "
+        "accepted) and about 190 000 single mutants: each either compiles or raises a ScenicSyntaxError whose line lies inside the text; no "
+        "other exception type, no raw SyntaxError, no hang (CPU watchdog), and the veneer's global state is pristine afterwards.",
+        "Trusted: gen/mutate.py, the watchdog, the list of documented forms transcribed from docs/reference. The mutation space beyond "
+        "distance 1 (thorough 2) from the seeds is not covered.",
+        "3/C10",
+    ),
 }
 
 NOT_YET = {}
